@@ -52,6 +52,9 @@ func (x *Exec) freshResults(st *State, res *types.Tuple, prefix string) []Value 
 func (x *Exec) staticCall(st *State, in *ssa.Call, fv FuncV, args []Value) []Outcome {
 	fn := fv.Fn
 	key := funcKey(fn)
+	if outs, ok := x.formatCall(st, in, key, args); ok {
+		return outs
+	}
 	c := x.v.cs.Contracts[key]
 	if c != nil && !c.Inline {
 		x.v.noteUse(x.key, key)
@@ -610,4 +613,58 @@ func (x *Exec) copyCall(st *State, in *ssa.Call, args []Value) []Outcome {
 	// a copy of zero elements leaves the heap alone (also covers the nil destination)
 	st.heap[key] = Ite(Eq(n, IntLit(0)), h, Store(h, ref, na))
 	return []Outcome{{st, []Value{TV{n, types.Typ[types.Int]}}}}
+}
+
+// formatCall: fmt.Sprintf / fmt.Errorf with a constant number of operands are
+// uninterpreted functions of the format string and the boxed operands
+// (written sprintf(format, iface(a), …) / errorf(…) in specifications).
+func (x *Exec) formatCall(st *State, in *ssa.Call, key string, args []Value) ([]Outcome, bool) {
+	var fn string
+	switch key {
+	case "fmt.Sprintf":
+		fn = "sprintf"
+	case "fmt.Errorf":
+		fn = "errorf"
+	default:
+		return nil, false
+	}
+	if len(args) != 2 {
+		return nil, false
+	}
+	format, ok1 := args[0].(TV)
+	va, ok2 := args[1].(TV)
+	if !ok1 || !ok2 || va.T.Sort != SSlice {
+		return nil, false
+	}
+	n, ok := Sel("s-len", va.T).IntVal()
+	if !ok || n.Int64() > 6 {
+		return nil, false
+	}
+	anyT := types.Universe.Lookup("any").Type()
+	ops := []*Term{format.T}
+	for i := int64(0); i < n.Int64(); i++ {
+		ops = append(ops, x.heapRead(st, anyT, Sel("s-ref", va.T), Add(Sel("s-off", va.T), IntLit(i))))
+	}
+	t := x.formatApp(fn, ops)
+	x.assumeNote("fmt.Sprintf/Errorf are uninterpreted functions of the format and the operands")
+	if fn == "errorf" {
+		st.assume(Not(Eq(t, Atom("iface-nil", SIface))))
+		return []Outcome{{st, []Value{TV{t, types.Universe.Lookup("error").Type()}}}}, true
+	}
+	st.assume(x.ti.WF(t, tString, nil)...)
+	return []Outcome{{st, []Value{TV{t, tString}}}}, true
+}
+
+func (x *Exec) formatApp(fn string, ops []*Term) *Term {
+	name := fmt.Sprintf("%s_%d", fn, len(ops)-1)
+	sort := SStr
+	if fn == "errorf" {
+		sort = SIface
+	}
+	var ps []string
+	for _, o := range ops {
+		ps = append(ps, string(o.Sort))
+	}
+	x.declareFun(name, fmt.Sprintf("(declare-fun %s (%s) %s)", name, strings.Join(ps, " "), sort))
+	return App(name, sort, ops...)
 }
